@@ -7,7 +7,7 @@ from ..common import blit, coq_eval, zlit
 
 MANIFEST = {
 	'text': 'Address structure, validity on the own network / invalidity under any other identifier, the base32 round trip for all '
-		'24-byte (Symbol form) and 25-byte (NEM) values (and for every multiple of 5), totality of b32decode on the alphabet and the '
+		'24-byte (Symbol form) and 25-byte (NEM) values (and for every multiple of 5; hence address_text_injective), totality of b32decode on the alphabet and the '
 		'exact acceptance condition of is_valid_address_string are Qed theorems (Props/C08.v, closed under the global context) over '
 		'the model of Network.py / symbol.Network / nem.Network / ByteArray and of CPython base64, parametric in the hashes and '
 		'instantiated with the Gallina SHA3-256, Keccak-256 and RIPEMD-160; constants, operators, alphabet and shipped identifiers are '
